@@ -22,8 +22,9 @@ META = {
     "technique": "TLA+ contract of delimiter-aligned block reading; TLC enumerates all small files x delimiters x blocksizes; real "
                  "read_bytes/read_text outputs validated by TLC",
     "level_text": "Exhaustive over all files of length <= 6 (thorough 8) over {a,b,d,e} x 4 delimiters (d, de, dd, ded) x every "
-                  "blocksize 1..len+1 and None x include_path x files_per_partition, one and two files, ASCII and multi-byte "
-                  "concretisation: TLC proves the contract on the Cut-defined blocks for every blocksize and decides every recorded "
+                  "blocksize 1..len+1 and None x include_path x files_per_partition (1-4 over 1-5 files, partition count decided too), "
+                  "ASCII, multi-byte and 'every non-delimiter symbol is a Unicode line boundary (VT, U+2028, RS)' "
+                  "concretisations: TLC proves the contract on the Cut-defined blocks for every blocksize and decides every recorded "
                   "block list / line list; random files up to 200 symbols with random delimiters are validated the same way.",
     "level_note": "Trusted: TLC; the symbol<->byte concretisation; fsspec's local file system. The exact offsets chosen by the "
                   "float arithmetic of read_bytes are the implementation's freedom: only the contract on the blocks is demanded.",
@@ -32,16 +33,32 @@ META = {
 SYM = {1: "a", 2: "b", 3: "d", 4: "e"}
 
 
+# "nlu"/"nlx": the delimiter symbol is the newline and every other symbol is a character that str.splitlines() (but not
+# read_text, whose lines end at the line delimiter only) treats as a line boundary: VT, LINE SEPARATOR (3 bytes), RS
+NLU = {1: "\x0b", 2: "\u2028", 3: "\n", 4: "\x1e"}
+NLU_INV = {v: k for k, v in NLU.items()}
+
+
+def files_of(f, nfiles):
+    """the contents of the files of a case: f, f reversed, then rotations of f"""
+    out = [list(f)]
+    if nfiles >= 2:
+        out.append(list(f[::-1]))
+    for k in range(2, nfiles):
+        out.append(list(f[k % max(1, len(f)):]) + list(f[:k % max(1, len(f))]))
+    return out
+
+
 def concretise(seq, enc):
     """symbols -> text.  enc 'ascii': d=';' e='|';  'nl': d='\\n' e='x' ; 'utf8': a is a 2-byte letter"""
     m = {"ascii": {1: "a", 2: "b", 3: ";", 4: "|"}, "nl": {1: "a", 2: "b", 3: "\n", 4: "x"},
-         "utf8": {1: "é", 2: "b", 3: ";", 4: "中"}}[enc]
+         "utf8": {1: "é", 2: "b", 3: ";", 4: "中"}, "nlu": NLU, "nlx": NLU}[enc]
     return "".join(m[s] for s in seq)
 
 
 def abstract(text, enc):
     m = {"ascii": {"a": 1, "b": 2, ";": 3, "|": 4}, "nl": {"a": 1, "b": 2, "\n": 3, "x": 4},
-         "utf8": {"é": 1, "b": 2, ";": 3, "中": 4}}[enc]
+         "utf8": {"é": 1, "b": 2, ";": 3, "中": 4}, "nlu": NLU_INV, "nlx": NLU_INV}[enc]
     return [m.get(ch, 9) for ch in text]
 
 
@@ -62,12 +79,11 @@ def _tmpdir():
 def observe(case):
     """case: {f, dl, enc, bs (int or None), include_path, fpp, nfiles}.  Returns records."""
     import dask
-    from dask.bag.text import read_text
-    from dask.bytes import read_bytes
+    import dask.bag.text as _BT
+    import dask.bytes.core as _BC
+    read_text, read_bytes = _BT.read_text, _BC.read_bytes        # (module attributes, so that in-memory mutants are seen)
     enc = case["enc"]
-    texts = [concretise(case["f"], enc)]
-    if case["nfiles"] == 2:
-        texts.append(concretise(case["f"][::-1], enc))
+    texts = [concretise(x, enc) for x in files_of(case["f"], case["nfiles"])]
     delim = concretise(case["dl"], enc)
     d = _tmpdir()
     paths = []
@@ -90,10 +106,12 @@ def observe(case):
                 recs.append({"kind": "bytes", "f": abstract(t, enc), "dl": case["dl"], "blocks": blk})
         else:
             kw = {}
-            if not (enc == "nl" and case["dl"] == [3]):
+            if not (enc in ("nl", "nlu") and case["dl"] == [3]):
                 kw["linedelimiter"] = delim
             b = read_text(paths, blocksize=case["bs"], files_per_partition=case["fpp"], include_path=case["include_path"], **kw)
             got = b.compute(scheduler="sync")
+            if case["fpp"]:
+                recs.append({"kind": "parts", "nfiles": len(paths), "fpp": case["fpp"], "nparts": b.npartitions})
             if case["include_path"]:
                 ok_paths = all(isinstance(x, tuple) and len(x) == 2 for x in got)
                 by = {p: [x[0] for x in got if ok_paths and x[1] == p] for p in paths}
@@ -138,18 +156,24 @@ def expand(c, rng, thorough):
     f, dl = c["f"], c["dl"]
     n = len(f)
     out = []
-    encs = ["ascii", "utf8"] + (["nl"] if dl == [3] else [])
+    encs = ["ascii", "utf8", "nlx"] + (["nl", "nlu"] if dl == [3] else [])
     bss = list(range(1, n + 2)) + [None]
     if not thorough:
         bss = sorted(set(rng.sample(range(1, n + 2), min(3, n + 1)))) + [None]
-        encs = [rng.choice(encs)]
+        encs = rng.sample(encs, 2)
     for enc in encs:
         for bs in bss:
             # blocksize counts BYTES: keep symbol blocksizes but also exercise byte-level cuts in utf8
             out.append({"what": "bytes", "f": f, "dl": dl, "enc": enc, "bs": bs, "include_path": False, "fpp": None,
                         "nfiles": 1 + (len(out) % 2)})
             out.append({"what": "text", "f": f, "dl": dl, "enc": enc, "bs": bs, "include_path": bool(len(out) % 3 == 0),
-                        "fpp": (2 if bs is None and len(out) % 4 == 0 else None), "nfiles": 1 + (len(out) % 2)})
+                        "fpp": None, "nfiles": 1 + (len(out) % 2)})
+        # files_per_partition (only legal with blocksize=None): every grouping of 1..5 files, incl. a short last group
+        # and more files per partition than files
+        for nfiles, fpp in ([(rng.randint(1, 5), rng.randint(1, 4))] if not thorough else
+                            [(a, b) for a in (1, 2, 3, 5) for b in (1, 2, 3, 4)]):
+            out.append({"what": "text", "f": f, "dl": dl, "enc": enc, "bs": None, "include_path": bool((nfiles + fpp) % 3 == 0),
+                        "fpp": fpp, "nfiles": nfiles})
     return out
 
 
@@ -199,8 +223,9 @@ def core(ctx, rng, maxlen, thorough, cap, nrandom):
         dl = rng.choice([[3], [3, 4], [3, 3], [3, 4, 3], [4, 3, 3]])
         f = [rng.choice([1, 2, 3, 3, 4]) for _ in range(n)]
         for what in ("bytes", "text"):
-            calls.append({"what": what, "f": f, "dl": dl, "enc": rng.choice(["ascii", "utf8"]), "bs": rng.choice([None, 1, 2, 3, 5, 7, 16, 33]),
-                          "include_path": rng.random() < 0.3, "fpp": None, "nfiles": rng.choice([1, 2])})
+            calls.append({"what": what, "f": f, "dl": dl, "enc": rng.choice(["ascii", "utf8", "nlx"] + (["nlu"] if dl == [3] else [])),
+                          "bs": rng.choice([None, 1, 2, 3, 5, 7, 16, 33]),
+                          "include_path": rng.random() < 0.3, "fpp": None, "nfiles": rng.choice([1, 2, 3])})
     results = pmap(_work, calls, chunk=200)
     recs, owner = [], {}
     for case, rs, err in results:
@@ -255,10 +280,29 @@ def selftest(ctx):
     from ..mutate import source_mutant
     ok = True
     rng = random.Random(5)
-    with source_mutant(BC, "read_bytes", "off.append(int(place))", "off.append(int(place) + 1)"):
+    # (shifting every offset by one together with the lengths is a BENIGN change - the delimiter seek re-aligns both ends -
+    #  and must not alarm; a block that is one byte short while its successor starts where it should loses data)
+    import contextlib
+
+    from ..mutate import attr_mutant
+
+    @contextlib.contextmanager
+    def read_bytes_mutant(old, new):
+        # read_text calls the name it imported from dask.bytes: patch that reference as well
+        with source_mutant(BC, "read_bytes", old, new) as m, attr_mutant(BT, "read_bytes", m):
+            yield
+
+    with read_bytes_mutant("off.append(int(place))", "off.append(int(place) + 1)"):
         n = core(ctx, rng, 5, False, 300, 20)
-    sigs = sorted({v[0] for v in ctx.violations})[:3]
-    print("mutant offsets-shifted-by-one: %s (%d) %s" % ("DETECTED" if n else "MISSED", n, sigs)); ok &= n > 0
+    print("benign mutant offsets-shifted-by-one: %s (%d)" % ("NO ALARM" if not n else "ALARM", n)); ok &= n == 0
+    with read_bytes_mutant("length.append(off[-1] - off[-2])", "length.append(off[-1] - off[-2] - 1)"):
+        n = core(ctx, rng, 5, False, 300, 20)
+    sigs = sorted({v.get("signature", "") if isinstance(v, dict) else str(v[0]) for v in ctx.violations})[:3]
+    print("mutant block-length-short-by-one: %s (%d) %s" % ("DETECTED" if n else "MISSED", n, sigs)); ok &= n > 0
+    with source_mutant(BT, "read_text", "for start in range(0, len(files), files_per_partition):",
+                       "for start in range(0, len(files) - files_per_partition + 1, files_per_partition):"):
+        n = core(ctx, rng, 5, False, 300, 20)
+    print("mutant files_per_partition-drops-the-short-last-group: %s (%d)" % ("DETECTED" if n else "MISSED", n)); ok &= n > 0
     import fsspec.utils as FU
     orig = FU.read_block
 
